@@ -463,8 +463,8 @@ ARTEFACTS = {
     "g_set2": ["graph", "set2", "bytes", "3000", "{out}", "{alpha}"],
     "g_kb1_bytes": ["graph", "kb1", "bytes", "3000", "{out}", "{alpha}"],
     "g_kb2_bytes": ["graph", "kb2", "bytes", "3000", "{out}", "{alpha}"],
-    "g_event": ["graph", "event", "events", "8000", "{out}", "{alpha}"],
-    "g_kb2_events": ["graph", "kb2", "kbevents", "6000", "{out}", "{alpha}"],
+    "g_event": ["graph", "event", "events", "5000", "{out}", "{alpha}"],
+    "g_kb2_events": ["graph", "kb2", "kbevents", "4000", "{out}", "{alpha}"],
     "g_kb2_bits": ["graph", "kb2:lean", "bits", "200000", "{out}", "{alpha}"],
     "g_kb1_bits": ["graph", "kb1:lean", "bits", "200000", "{out}", "{alpha}"],
     "g_kb2_mixedq": ["graph", "kb2:lean", "mixedq", "250000", "{out}", "{alpha}"],
@@ -512,9 +512,9 @@ JOBS = {
     "conf_preds": dict(kind="tlc", module="Conf_Preds", cfg="Conf_Preds.cfg", workers=1,
                        env={"PREDS": "art:t_preds"}),
     "mc_event": dict(kind="tlc", module="MC_Event", cfg="MC_Event.cfg", workers=8, cont=False),
-    "conf_event": dict(kind="tlc", module="Conf_Event", cfg="Conf_Event.cfg", workers=8, heap="8g",
+    "conf_event": dict(timeout=2400, kind="tlc", module="Conf_Event", cfg="Conf_Event.cfg", workers=8, heap="8g",
                        env={"GRAPH": "art:g_event", "ALPHA": "alpha:g_event", "COMP": "event"}),
-    "conf_kb2_events": dict(kind="tlc", module="Conf_Event", cfg="Conf_Event.cfg", workers=8, heap="8g",
+    "conf_kb2_events": dict(timeout=2400, kind="tlc", module="Conf_Event", cfg="Conf_Event.cfg", workers=8, heap="8g",
                             env={"GRAPH": "art:g_kb2_events", "ALPHA": "alpha:g_kb2_events", "COMP": "kb2"}),
     "mc_keyboard_set2": dict(kind="tlc", module="MC_Keyboard", cfg="MC_Keyboard_set2.cfg", workers=8, cont=False),
     "mc_keyboard_set1": dict(kind="tlc", module="MC_Keyboard", cfg="MC_Keyboard_set1.cfg", workers=8, cont=False),
@@ -528,7 +528,7 @@ JOBS = {
     "conf_kb1_mixedq": dict(kind="tlc", module="Conf_Keyboard", cfg="Conf_Keyboard.cfg", workers=8, heap="12g", timeout=2400,
                             env={"GRAPH": "art:g_kb1_mixedq", "ALPHA": "alpha:g_kb1_mixedq", "COMP": "kb1", "FGRAPH": "art:g_frame", "SGRAPH": "art:g_set1", "EGRAPH": "art:g_event", "WORDS": "art:t_words"}),
     # the whole event alphabet through Keyboard::process_keyevent against the real EventDecoder automaton
-    "conf_kb2_events_wiring": dict(kind="tlc", module="Conf_Keyboard", cfg="Conf_Keyboard.cfg", workers=8, heap="8g",
+    "conf_kb2_events_wiring": dict(timeout=2400, kind="tlc", module="Conf_Keyboard", cfg="Conf_Keyboard.cfg", workers=8, heap="8g",
                                    env={"GRAPH": "art:g_kb2_events", "ALPHA": "alpha:g_kb2_events", "COMP": "kb2",
                                         "FGRAPH": "art:g_frame", "SGRAPH": "art:g_set2", "EGRAPH": "art:g_event",
                                         "WORDS": "art:t_words"}),
